@@ -10,4 +10,5 @@ INVARIANT HookOrder
 INVARIANT StoppedIffNoRun
 INVARIANT StateMatchesFlags
 INVARIANT FlagsOnlyInARun
+INVARIANT SafeWhenNoRun
 CHECK_DEADLOCK FALSE
